@@ -41,6 +41,7 @@ class Func:
         self.name = node.name
         self.opaque = []       # decorators the normal form could not read (norm.compose_decorators)
         self.memo = []         # memoising decorators
+        self.is_cm = False     # a @contextmanager generator function
 
     @property
     def params(self):
